@@ -379,6 +379,28 @@ def run_history(case, two_d_monitors=False):
                 since = pos
                 frozen_prefix = I.trajectory.copy()
                 twod_rows(I.trajectory.iloc[-1:], f'set_pva#{len(ops)}')
+            elif r < 0.955:
+                # Round 6: a REJECTED overwrite (a fix without attitude / without velocity columns, as a user passing the wrong table row would):
+                # the call raises and must leave no trace - the table, the valid part of the buffers and the continuation are as if it had
+                # not happened (the history model simply does not know about it).
+                ops.append(('set_pva_rejected',))
+                t_now = I.trajectory.index[-1]
+                full = random_pva(rng, t_now, vd=True, two_d=False)
+                full['alt'] += 1000.0
+                full['VD'] = 7.0
+                keep = [TRAJ[:6], TRAJ[:3], TRAJ[:3] + TRAJ[6:], TRAJ[3:]][int(rng.integers(0, 4))]
+                part = full[keep]
+                rows_ = len(I.trajectory)
+                snap_t = I.trajectory.copy()
+                snap_b = (I.lla[:rows_].copy(), I.velocity_n[:rows_].copy(), I.mat_nb[:rows_].copy())
+                try:
+                    I.set_pva(part)
+                    fail(vio('exception', f'set_pva accepted a state without {sorted(set(TRAJ) - set(keep))}'))
+                except (KeyError, IndexError, ValueError, TypeError, AttributeError):
+                    bump('set_pva_rejected_calls')
+                if not same_table(I.trajectory, snap_t) or not (same_bits(I.lla[:rows_], snap_b[0]) and same_bits(I.velocity_n[:rows_], snap_b[1])
+                                                                 and same_bits(I.mat_nb[:rows_], snap_b[2])):
+                    fail(vio('rejected_call_left_trace', f'a rejected set_pva (columns {keep}) changed the stored trajectory or the buffers', op=len(ops)))
             else:
                 ops.append(('get_time',))
                 if I.get_time() != expected_index[-1]:
